@@ -52,7 +52,8 @@ def _case(draw, tier):
     c = {
         "mesh": mesh,
         "mode": mode,
-        "rule": draw(st.sampled_from([("triangular", 4)] * (6 if fam == "mpas" else 1) + RULES)),
+        # (MPAS-like sources: the default rule in two thirds of the cases, decided by its own draw)
+        "rule": ("triangular", 4) if (fam == "mpas" and draw(st.integers(0, 2)) > 0) else draw(st.sampled_from([("triangular", 4)] + RULES)),
         "history": draw(st.lists(st.sampled_from(RULES), max_size=2)),
         "coef": [draw(st.integers(-3, 3)), draw(st.integers(-3, 3))],
         "name": draw(st.sampled_from(["psi", "v", None])),
@@ -82,6 +83,8 @@ def classify(case):
         labs.append("non-default-rule")
     if case["history"]:
         labs.append("prior-calls")
+    if case.get("source") == "mpas":
+        labs.append(f"source:mpas:radius={case.get('radius', 1.0):g}:" + ("default-rule" if default else "other-rule"))
     return labs, (bool(case["data"]["lead"]) or bool(coincide) or not default or bool(case["history"]))
 
 
